@@ -86,6 +86,41 @@ CHECKS.update({
                 ref="7-C09", note=CONC_NOTE, technique=TECH_CONC),
 })
 
+
+CHECKS.update({
+    "C06": dict(text="LinkedList.tla and Ring.tla transcribe the (forked) pointer algorithms statement by statement; TLC checks well-formedness and "
+                     "refinement to sequences / cycles for every call with every combination of handles (live, foreign, removed, self-marks, a "
+                     "list pushed onto itself, zero values, all counts); the tour runs every model transition on lists.* AND on container/list / "
+                     "container/ring in lock step, and TLC validates that return values and full observations are equal at every step.",
+                ref="7-C06", note=SEQ_NOTE + "; the installed Go toolchain's container/list and container/ring are the reference", technique=TECH),
+    "C10": dict(text="PubSub.tla models subscriber list + RWMutex + channels + spawned sender goroutines + WaitGroup + timers; TLC checks no-panic, "
+                     "at-most-once, wait-returns-after-hand-off, exactly-once-at-quiescence for 2 publishers x 2 subscribers x Pub/PubWait/PubSync, "
+                     "timers on/off (and shows the pinned design panics). Scenario scripts drive the real PubSub (every variant, buffer sizes, "
+                     "timeouts, Unsub under pending sends, WithOnly, UnsubAll, late subscribers, random mixes), each in crash-contained runs; TLC "
+                     "validates every recorded trace against a monitor stating exactly the clauses of the property.",
+                ref="7-C10", note="trusted: TLC; the scenario driver (records calls, received values, callbacks verbatim, flushes every line); quiescence "
+                                  "read from goroutine states; internal sender scheduling is not controllable (any order is accepted by the monitor)",
+                technique="TLA+ design model checked by TLC + scenario scripts on the real code + TLC trace validation against a monitor"),
+    "C17": dict(text="Once.tla (sync.Once contract + the wrapper's store/read of the result fields) is model-checked for 3-4 callers; the real "
+                     "Once1/2/3 are driven with gated actions: callers racing, callers arriving while the action is blocked (seen parked inside "
+                     "sync.Once), callers after completion, under the race detector; TLC validates every trace: one start, by a passed function, "
+                     "no return before completion, all returns equal that run's values and see its effect.",
+                ref="7-C17", note="trusted: TLC, the gate-based driver; the winner among simultaneous callers cannot be forced", technique="TLA+ model checked by TLC + gated scenarios on the real code + TLC trace validation"),
+    "C18": dict(level="model_checking",
+                text="Register.tla's graph is toured on AtomicValue[int|string|struct] and TLC validates the sequential traces and free-running "
+                     "concurrent histories as linearizable to one register; Pool.tla (avail/out tokens, arbitrary drops, and the per-call write of "
+                     "pool.New as a named racy variant) is model-checked, real Get/Put histories over unique tokens are validated by TLC, and "
+                     "both run under the Go race detector for the data-race clause.",
+                ref="7-C18", note="no hook points exist inside atomic.Value / sync.Pool: concurrent defects of the wrappers are found probabilistically; "
+                                  "data-race clause decided by the Go race detector", technique="TLA+ models checked by TLC + tour / free-running histories of the real code + TLC trace validation + race detector"),
+    "C19": dict(text="ChanHelpers.tla models the queued receivers' non-blocking loop and the timed helpers' two-way select over all orders of call "
+                     "start / peer ready / timer-context firing, checking conservation; every capacity x fill x closed x limit cell and every "
+                     "deadline-kind x peer-timing scenario runs on real channels and TLC validates results, remaining contents and peer receipts "
+                     "(outcomes a race could decide either way are only checked for conservation).",
+                ref="7-C19", note="trusted: TLC, the scenario driver; real timers, with demanded outcomes never depending on margins below 170ms",
+                technique="TLA+ model checked by TLC + scenario cells on real channels + TLC trace validation"),
+})
+
 for k in ("C07", "C08", "C11"):
     CHECKS[k].setdefault("level", "model_checking")
 
